@@ -245,13 +245,18 @@ func run(prop *Prop, id, tier string, seed int64, replay, work string, start tim
 		fmt.Printf("HARNESS-ERROR property=%s %s\n", id, harnessErr)
 		exit = 2
 	}
-	os.MkdirAll(filepath.Join(verifRoot, "replay", id), 0o755)
+	outRoot := verifRoot
+	if repoRoot != "/repo" {
+		// a run against a scratch tree (mutation testing) must not overwrite the real evidence
+		outRoot = filepath.Join(verifRoot, "work", "scratch-out")
+	}
+	os.MkdirAll(filepath.Join(outRoot, "replay", id), 0o755)
 	for i, v := range fresh {
 		if i >= 25 {
 			fmt.Printf("... %d further violations not listed\n", len(fresh)-i)
 			break
 		}
-		p := filepath.Join(verifRoot, "replay", id, sanitize(v.Key)+".json")
+		p := filepath.Join(outRoot, "replay", id, sanitize(v.Key)+".json")
 		b, _ := json.MarshalIndent(v, "", " ")
 		os.WriteFile(p, b, 0o644)
 		fmt.Printf("VIOLATION property=%s replay=%s\n  key=%s\n  %s\n", id, p, v.Key, firstLines(v.Detail, 12))
@@ -298,8 +303,8 @@ func run(prop *Prop, id, tier string, seed int64, replay, work string, start tim
 		"violations":  len(fresh),
 	}
 	b, _ := json.MarshalIndent(ev, "", " ")
-	os.MkdirAll(filepath.Join(verifRoot, "evidence"), 0o755)
-	if err := os.WriteFile(filepath.Join(verifRoot, "evidence", id+".json"), append(b, '\n'), 0o644); err != nil {
+	os.MkdirAll(filepath.Join(outRoot, "evidence"), 0o755)
+	if err := os.WriteFile(filepath.Join(outRoot, "evidence", id+".json"), append(b, '\n'), 0o644); err != nil {
 		die(2, "write evidence: %v", err)
 	}
 	fmt.Printf("%s tier=%s evaluations=%d distinct_nontrivial=%d violations=%d known=%d exhaustive=%v wall=%.1fs\n",
